@@ -453,7 +453,8 @@ def load_attr(engine, st, o, attr, node):
                 engine.used_models.add(f"opaque-external-method:{attr}")
 
                 def opaque(engine, st, args, kwargs, node, attr=attr):
-                    yield st, Raised("<unknown>", where=f"external .{attr}()")
+                    if not (engine.spec_ctx or engine.spec_depth):
+                        yield st, Raised("<unknown>", where=f"external .{attr}()")
                     yield st, sv_v(S.fresh("ext_" + attr, V), TAny)
 
                 yield st, SV("func", ("py", opaque))
@@ -470,10 +471,14 @@ def load_attr(engine, st, o, attr, node):
                     return
                 rest = nxt
             # none of the repository's classes: an external object (opaque member) -- returns anything or raises
+            if engine.spec_ctx or engine.spec_depth:
+                yield rest, Raised("AttributeError", where=f"<dynamic>.{attr}")
+                return
             engine.used_models.add(f"opaque-external-member:{attr}")
 
             def opaque2(engine, st, args, kwargs, node, attr=attr):
-                yield st, Raised("<unknown>", where=f"external .{attr}()")
+                if not (engine.spec_ctx or engine.spec_depth):
+                    yield st, Raised("<unknown>", where=f"external .{attr}()")
                 yield st, sv_v(S.fresh("ext_" + attr, V), TAny)
 
             yield rest, SV("func", ("py", opaque2))
